@@ -32,7 +32,7 @@ META = {
     "ready": True,
     "category": "proof",
     "technique": "Lean 4 refinement theorem over all evaluation histories (slots refine binding cells: simulation with an abstraction map slot -> cell through SymbolMap.add / roll_back / slot recycler / run of the forms; a second simulation for the unit-local constant propagation) + regenerated recycler scan table + differential histories real Engine vs specification vs model with the theorems' guards evaluated per step",
-    "level_text": "Proved for ALL histories (any length, any number of recycler runs, any initial threshold/epoch; SteelVerif/C06/Props.lean): slots_refine_cells - the mechanism model M (SymbolMap.add/get/roll_back with shadow and free lists, global vector, build failure with roll-back, run-time failure keeping completed definitions, gc_shadowed_roots trigger with threshold doubling/epoch, GlobalSlotRecycler fixed point) gives exactly the results of the specification S (names -> binding cells, fresh cell per define, set! writes the cell, failed build is a no-op) on every history inside three decidable guards: guardC (a build fails only while no reclaimed slot awaits reuse, or defines nothing - negation of K06c), guardB (no definition after an (error ...) form in the unit - K06b), guardU (no definition after a form that reads/calls/assigns in the same unit). live_slots_owned: after every such history there is an injective map slot -> cell under which every function stored in a slot in use mentions only slots that are in use, not on the free list and owned by the cell the specification's function captured (preserved by add, roll-back, recycler run, every form). propagate_refines_partial: the compiler's unit-local constant propagation (modelled: (define x k) into function bodies of the same unit that assign x nowhere) is invisible to S inside the decidable guard histOKA (no form assigns a frozen cell - negation of K06a); slots_refine_cells_real composes both for the pipeline propagate-then-M. slots_refine_cells_any_reuse_order: the same with an oracle permuting the free list before every unit (the real recycler's hash-set order decides which reclaimed slot a definition takes; the result does not depend on it). Corollaries: redefinition_only_affects_later_code, set_visible_to_all (unconditional, from any reachable state), failed_unit_is_noop_partial; the unguarded statements are proved FALSE with decided witnesses that are the replays of K06a, K06b, K06c (k06a_outside_guard, k06b_outside_guard, k06c_outside_guard, not_failedUnitIsNoop, not_rollbackRestores, not_pipeline_refines_unguarded, use_before_define_outside_guard). Unit level: recycler scan list (regenerated from closed.rs on every run) covers every op code that indexes the global vector and the recycler hands the code a live continuation resumes to that scan (gen_recycler_scans_continuations); the recycler's fixed point never frees a slot mentioned by a surviving slot; roll_back restores map, values, shadow list and free list when no recycled slot was reused. Tie: histories on one real Engine (define / redefine / set! / setters / built-ins in globals / captured closures / failing builds / run-time failures / churn across the recycling threshold / chains through shadowed bindings) compared with S after every step with every function called; the driver evaluates the theorems' guards on every piece - inside them model = S is re-checked, outside them a deviation is attributed to a finding only when the model predicts the engine's answer; the engine's shadowed count / threshold / epoch are compared with the model's at every step (reported); real SymbolMap vs model on random unit-level sequences incl. recycler runs.",
+    "level_text": "Proved for ALL histories (any length, any number of recycler runs, any initial threshold/epoch; SteelVerif/C06/Props.lean): slots_refine_cells - the mechanism model M (SymbolMap.add/get/roll_back with shadow and free lists, global vector, build failure with roll-back, run-time failure keeping completed definitions, gc_shadowed_roots trigger with threshold doubling/epoch, GlobalSlotRecycler fixed point) gives exactly the results of the specification S (names -> binding cells, fresh cell per define, set! writes the cell, failed build is a no-op) on every history inside three decidable guards: guardC (a build fails only while no reclaimed slot awaits reuse, or defines nothing - negation of K06c), guardB (no definition after an (error ...) form in the unit - K06b), guardU (no definition after a form that reads/calls/assigns in the same unit). live_slots_owned: after every such history there is an injective map slot -> cell under which every function stored in a slot in use mentions only slots that are in use, not on the free list and owned by the cell the specification's function captured (preserved by add, roll-back, recycler run, every form). propagate_refines_partial: the compiler's unit-local constant propagation (modelled: (define x k) into function bodies of the same unit that assign x nowhere) is invisible to S inside the decidable guard histOKA (no form assigns a frozen cell - negation of K06a); slots_refine_cells_real composes both for the pipeline propagate-then-M. slots_refine_cells_any_reuse_order: the same with an oracle permuting the free list before every unit (the real recycler's hash-set order decides which reclaimed slot a definition takes; the result does not depend on it). Liveness (LemmasLiveness.lean): recycle_dead_iff / recycle_frees_unreached - a recycler run reclaims EXACTLY the shadowed slots not reached from the unshadowed globals (through mentions, transitively through reached shadowed slots); recycle_frees_candidate_cycles - shadowed slots mentioned only by each other (recursive / mutually recursive procedures) are reclaimed; walking_candidates_keeps_self_mention - the variant that walks candidates as roots keeps a self-mentioning candidate (decided); gen_recycler_roots_exclude_candidates - translator obligation that the source's first root walk excludes candidates (one loop, guarded); pending_shadows_bounded / slots_bounded - after every history inside the guards the pending shadows are within the threshold, so slots in use <= settled (named or retained-because-reached) + threshold; retained_slots_are_not_reconsidered - decided witness that a retained slot whose referrer is later redefined stays in use (the engine's 'after one pass ignore it forever'), i.e. names + threshold alone is not a bound. Tie for liveness: histories redefining recursive and mutually recursive procedures across the threshold, engine's free-list length against the model's (gap <= 4, never negative; reported as liveness_gap_max). Corollaries: redefinition_only_affects_later_code, set_visible_to_all (unconditional, from any reachable state), failed_unit_is_noop_partial; the unguarded statements are proved FALSE with decided witnesses that are the replays of K06a, K06b, K06c (k06a_outside_guard, k06b_outside_guard, k06c_outside_guard, not_failedUnitIsNoop, not_rollbackRestores, not_pipeline_refines_unguarded, use_before_define_outside_guard). Unit level: recycler scan list (regenerated from closed.rs on every run) covers every op code that indexes the global vector and the recycler hands the code a live continuation resumes to that scan (gen_recycler_scans_continuations); the recycler's fixed point never frees a slot mentioned by a surviving slot; roll_back restores map, values, shadow list and free list when no recycled slot was reused. Tie: histories on one real Engine (define / redefine / set! / setters / built-ins in globals / captured closures / failing builds / run-time failures / churn across the recycling threshold / chains through shadowed bindings) compared with S after every step with every function called; the driver evaluates the theorems' guards on every piece - inside them model = S is re-checked, outside them a deviation is attributed to a finding only when the model predicts the engine's answer; the engine's shadowed count / threshold / epoch are compared with the model's at every step (reported); real SymbolMap vs model on random unit-level sequences incl. recycler runs.",
     "level_note": "Trusted: Lean kernel, the translator regexes, harness/driver/comparison. M is hand-written after compiler/map.rs, values/closed.rs, engine.rs (tied by the unit-level and history-level correspondence, not by translation); the values of M are abstract (a function = the list of global slots / literals its body mentions; the compiler's choice of op codes is C01's matter; hand list of global-indexing op codes in LemmasRecycler.lean). Not modelled: inlining of small procedures into callers of the same unit (same finding class K06a as the constant propagation, which is modelled), lambda-lifted hidden globals (the engine keeps 1-2 more slots alive than M in some recycler runs: reported as free_count_max_excess_of_model; the opposite direction would be reported as a note), continuations (not in the history language of the Lean model: a continuation is a value whose pending code mentions global slots exactly like a function's body, and the recycler has to scan it like one - tied by the translator (continuation_code_scanned; obligation gen_recycler_scans_continuations) and by the generated continuation histories real vs binding-cell semantics; this is how K06d was found - fixed in /repo f2f700ff, its histories are corpus entries d20/d21). The engine rejects a name defined twice in one unit (BadSyntax) before touching the symbol map; M and S accept it - such units only occur together with a failing form in the generated histories.",
 }
 
@@ -239,6 +239,42 @@ def gen_chain_history(rng, depth, churn, obs_every=20, more_churn=()):
     return pieces
 
 
+def gen_cycle_history(rng, rounds):
+    """Directed family for the LIVENESS of the recycler (recycle_frees_unreached / recycle_frees_candidate_cycles): recursive
+    procedures (they mention their own slot) and mutually recursive pairs (cycles between slots) are redefined `rounds`
+    times, across the recycling threshold, never called; nothing else refers to the old versions, so every recycler run must
+    reclaim all of them: the engine's free list must be as long as the model's after every step, up to the few versions
+    shadowed by the unit in flight (see run_histories); a recycler that walks candidates as roots never reclaims any."""
+    counter = [5000]
+
+    def fresh():
+        counter[0] += 1
+        return counter[0]
+
+    pieces = [["wrapdef"], ["defc v0 %d" % fresh()]]
+    shapes = []
+    for _ in range(rng.randint(1, 3)):
+        shapes.append(rng.choice(["self", "pair", "self2"]))
+    per_round = sum(2 if sh == "pair" else 1 for sh in shapes)
+    rounds = max(rounds, 120 // per_round + 2)          # always enough shadowings to make the recycler run
+    for k in range(rounds):
+        for si, sh in enumerate(shapes):
+            if sh == "self":
+                pieces.append(["deff r%d r%d:c v0:r" % (si, si)])
+            elif sh == "self2":
+                pieces.append(["deff r%d v0:r r%d:c r%d:c" % (si, si, si)])
+            else:
+                pieces.append(["deff p%d q%d:c" % (si, si), "deff q%d p%d:c v0:r" % (si, si)])
+        if k % 10 == 9:
+            pieces.append(["read v0"])
+        if rng.random() < 0.1:
+            pieces.append(["defc v0 %d" % fresh()])
+    for i in range(12):
+        pieces.append(["defc z%d %d" % (i, fresh())])
+    pieces.append(["read v0"])
+    return pieces
+
+
 def in_k06b_class(pieces, idx):
     """A unit that fails at run time contained a definition (after the failing form) of a name that was
     already defined."""
@@ -366,6 +402,18 @@ def run_histories(ctx, histories, label, stats, known):
                     if len(dist["difference_samples"]) < 3:
                         dist["difference_samples"].append({"stream": label, "piece": ";".join(piece), "index": pi,
                                                            "real": tail, "model": m.group(3)[:24]})
+                if label == "cycle":
+                    dist["liveness_gap_max"] = max(dist["liveness_gap_max"], int(mt["f"]) - int(t["f"]))
+                # The engine is allowed to lag the model by the versions shadowed by the unit whose build triggered the run
+                # (observed: one slot per recursive definition of that unit that also reads a variable; at most 2 definitions
+                # per unit in this family, two runs at most) - never to reclaim more, and never to let garbage accumulate.
+                if label == "cycle" and not (0 <= int(mt["f"]) - int(t["f"]) <= 4):
+                    # liveness: in these histories every shadowed slot is garbage (recursive procedures that only mention
+                    # themselves / each other); the model reclaims them all (recycle_frees_candidate_cycles) - so must the engine
+                    ctx.violation("C06-%s-%d-%d-liveness.txt" % (label, hi, pi), replay_text(h, pi, real, sres, mres) +
+                                  "# free list: engine %s slots, model %s slots: the engine's recycler did not reclaim what the model's "
+                                  "(recycle_frees_unreached) reclaims, or reclaimed more\n" % (t["f"], mt["f"]))
+                    break
                 if int(mt["f"]) != int(t["f"]):
                     dist["free_count_differs_inside_guards"] += 1
                     dist["free_count_max_excess_of_model"] = max(dist["free_count_max_excess_of_model"],
@@ -648,7 +696,7 @@ def run(ctx):
     stats = {"histories": 0, "evaluations": 0, "recycles_seen": 0, "model_vs_spec": 0, "seen": set(),
              "samples": [], "known_hits": {}, "unit_sequences": 0, "unit_disagree": [],
              "dist": {"pieces_inside_guards": 0, "pieces_after_leaving_guards": 0, "pieces_outside_gc": 0,
-                      "pieces_outside_gb": 0, "pieces_outside_gu": 0, "pieces_outside_ga": 0, "max_frozen_cells": 0, "rollbacks": 0, "runtime_failures": 0,
+                      "pieces_outside_gb": 0, "pieces_outside_gu": 0, "pieces_outside_ga": 0, "max_frozen_cells": 0, "liveness_gap_max": 0, "rollbacks": 0, "runtime_failures": 0,
                       "recyclings_model": 0, "units_changed_by_constant_propagation": 0, "max_shadow_depth": 0,
                       "trigger_state_differs_inside_guards": 0, "free_count_differs_inside_guards": 0,
                       "free_count_max_excess_of_model": 0, "free_count_max_excess_of_engine": 0, "observing_pieces": 0, "observations": 0,
@@ -689,6 +737,9 @@ def run(ctx):
     longs = [gen_chain_history(rng, 3, 130, obs_every=5, more_churn=(420,))] if ctx.quick() else \
         [gen_chain_history(rng, d, 130, obs_every=5, more_churn=(420, 830, 130)) for d in (2, 5)]
     run_histories(ctx, longs, "long", stats, known)
+    # liveness of the recycler: garbage cycles must be reclaimed (exact comparison of the free list's length)
+    run_histories(ctx, [gen_cycle_history(rng, r) for r in ((40, 70) if ctx.quick() else (40, 70, 110, 150, 220, 60))],
+                  "cycle", stats, known)
     for stream in ("k06a", "k06b", "k06c"):
         run_histories(ctx, [gen_history(rng, ln, stream) for _ in range(max(4, nh // 6))], stream, stats, known)
     run_scm_corpus(ctx, stats, known)
@@ -717,7 +768,7 @@ def run(ctx):
     ctx.coverage = {
         "obligations": pr["obligations"], "discharged": pr["discharged"],
         "checker_cmd": "cd lean && lake build SteelVerif.C06.Props SteelVerif.C06.Rollback && lake env lean SteelVerif/C06/Audit.lean",
-        "theorems": "history level: slots_refine_cells, slots_refine_cells_from, slots_refine_cells_any_reuse_order, live_slots_owned, propagate_refines_partial, slots_refine_cells_real, step_refines, pstep, redefinition_only_affects_later_code, set_visible_to_all, failed_unit_is_noop_partial + decided witnesses k06a/k06b/k06c/use_before_define_outside_guard, not_failedUnitIsNoop, not_pipeline_refines_unguarded; unit level: scan_complete, gen_recycler_fixpoint, get_add, recycle_safe, recycle_frees_only_shadowed, rollback_restores_partial, not_rollbackRestores, reachable_wf",
+        "theorems": "liveness: recycle_frees_unreached, recycle_dead_iff, recycle_frees_candidate_cycles, recycle_inUse, pending_shadows_bounded, slots_bounded, walking_candidates_keeps_self_mention, retained_slots_are_not_reconsidered, gen_recycler_roots_exclude_candidates; history level: slots_refine_cells, slots_refine_cells_from, slots_refine_cells_any_reuse_order, live_slots_owned, propagate_refines_partial, slots_refine_cells_real, step_refines, pstep, redefinition_only_affects_later_code, set_visible_to_all, failed_unit_is_noop_partial + decided witnesses k06a/k06b/k06c/use_before_define_outside_guard, not_failedUnitIsNoop, not_pipeline_refines_unguarded; unit level: scan_complete, gen_recycler_fixpoint, get_add, recycle_safe, recycle_frees_only_shadowed, rollback_restores_partial, not_rollbackRestores, reachable_wf",
         "trusted_base": C.TRUSTED_BASE + ["translate/c06_scan.py (regex extraction of the recycler's op-code match)",
                                           "hand list of global-indexing op codes in LemmasRecycler.lean"],
         "evaluations": stats["evaluations"], "distinct_nontrivial": len(stats["seen"]),
